@@ -4,7 +4,8 @@ Driver ops of C03 part Docs. Requests (one per line, blank separated):
   c03.docs.covdir    <oc 0|1> <res>*
   c03.docs.markdown  <res>*
   c03.docs.files     <res>*
-  c03.docs.html      <res>*                             res = R<abs hex>=<rel hex>=<cov>=<n source lines | x (unreadable)>
+  c03.docs.html      <res>*                             res = R<abs hex>=<rel hex>=<cov>=<n source lines | h<source bytes hex> | x (unreadable)>
+  c03.docs.lossylines <source bytes hex>                → <n>:<line hex>,<line hex>,…   (`lossyLines`)
 Answers: `panic`, or the canonical text of the document (see the `show…` functions; the harness
 prints the decoded real document the same way).
 -/
@@ -20,7 +21,9 @@ def parseRes (s : String) : Option (Res × Option Nat) :=
     pure (⟨← fromHex a, ← fromHex r, ← parseCov c⟩, none)
   | [a, r, c, n] => do
     guard (s.startsWith "R")
-    let n ← if n = "x" then some none else n.toNat?.map some
+    let n ← if n = "x" then some none
+      else if n.startsWith "h" then (fromHex (n.drop 1).toString).map fun b => some (lossyLines b).length
+      else n.toNat?.map some
     pure (⟨← fromHex a, ← fromHex r, ← parseCov c⟩, n)
   | _ => none
 
@@ -105,5 +108,13 @@ def handleDocsHtml (rs : List String) : String :=
           joinWith "," ((sortBytesKeys (names.map fun f => (f, ()))).map fun (f, _) => toHex f) ++ "]"
       ("ok " ++ joinWith " " (pages ++ idx)).trimAsciiEnd.toString
   | none => "bad-op"
+
+/-- `c03.docs.lossylines <hex>`: the lines `gen_html` sees in these source bytes -/
+def handleDocsLossyLines : List String → String
+  | [] => "0:"
+  | [h] => match fromHex h with
+    | some b => let ls := lossyLines b; s!"{ls.length}:{joinWith "," (ls.map toHex)}"
+    | none => "bad-op"
+  | _ => "bad-op"
 
 end Grcov.Drv
